@@ -411,6 +411,16 @@ func fingerprintChain(p *Prog, r *Report, ru *Rule, fn *ssa.Function, depth int)
 			call, _ = v.(*ssa.Call)
 		}
 		if nil == call {
+			/* string(buf) with buf filled by enc.Encode(buf, digest). */
+			if _, isBuf := v.(*ssa.MakeSlice); isBuf {
+				eachInstr(fn, func(j ssa.Instruction) {
+					if c2, ok := j.(*ssa.Call); ok && "(*encoding/base64.Encoding).Encode" == calleeName(c2.Common()) && c2.Common().Args[1] == v {
+						call = c2
+					}
+				})
+			}
+		}
+		if nil == call {
 			return
 		}
 		nret++
@@ -430,6 +440,20 @@ func fingerprintChain(p *Prog, r *Report, ru *Rule, fn *ssa.Function, depth int)
 		switch calleeName(call.Common()) {
 		case "(*encoding/base64.Encoding).EncodeToString":
 			digest = call.Common().Args[1]
+		case "(*encoding/base64.Encoding).Encode":
+			/* The destination is sized by EncodedLen of the digest's
+			length (anything shorter panics, longer leaves NULs). */
+			digest = call.Common().Args[2]
+			okLen := false
+			if ms, ok := call.Common().Args[1].(*ssa.MakeSlice); ok {
+				if lc, ok := ms.Len.(*ssa.Call); ok && "(*encoding/base64.Encoding).EncodedLen" == calleeName(lc.Common()) {
+					okLen = true
+				}
+			}
+			if !okLen {
+				ru.Bad(c, posOf(call), "the buffer the pin is encoded into is not sized with EncodedLen: the pin would carry trailing NUL bytes or be cut")
+				return
+			}
 		case "(*encoding/base64.Encoding).AppendEncode":
 			/* string(enc.AppendEncode(<empty>, digest)) */
 			dst := call.Common().Args[1]
@@ -623,9 +647,23 @@ func checkC05Server(p *Prog, r *Report, rSrc, rPins, rPort *Rule) {
 		nj++
 		cc := fmt.Sprintf("%s:JoinHostPort#%d", fnName(la), nj)
 		rs := valueRoots(c.Common().Args[1], through)
-		okk := len(rs) > 0
+		okk := false
 		for _, rt := range rs {
-			if !("call" == rt.Kind && "(net.Listener).Addr" == rt.Callee) {
+			switch {
+			case "call" == rt.Kind && "(net.Listener).Addr" == rt.Callee:
+				okk = true
+			case "const" == rt.Kind && isNumberBase(rt.V):
+				/* the base argument of strconv.FormatUint / FormatInt */
+			default:
+				okk = false
+				rs = append(rs[:0:0], rt)
+			}
+			if !okk && "const" != rt.Kind {
+				break
+			}
+		}
+		for _, rt := range rs {
+			if !("call" == rt.Kind && "(net.Listener).Addr" == rt.Callee) && !("const" == rt.Kind && isNumberBase(rt.V)) {
 				okk = false
 			}
 		}
@@ -762,4 +800,10 @@ func isStdEncoding(p *Prog, v ssa.Value) bool {
 		visit(fn)
 	}
 	return 1 == n && okAll
+}
+
+// isNumberBase: the integer constant 10 (the base handed to strconv).
+func isNumberBase(v ssa.Value) bool {
+	k, ok := constInt(v)
+	return ok && 10 == k
 }
